@@ -46,6 +46,7 @@ DESCRIPTION = {
     "real_code": [
         "sqllineage/runner.py", "sqllineage/core/metadata_provider.py (session logic)", "sqllineage/core/metadata/dummy.py",
         "sqllineage/core/holders.py", "both analyzers (sqlfluff, sqlparse)", "sqlfluff, sqlparse, networkx",
+        "sqllineage/cli.py (main, -e / -f, table and column level)", "sqllineage/drawing.py (POST /lineage through the WSGI callable; wsgiref's socket layer is not exercised)",
     ],
     "stubs": ["SimProvider._get_table_columns (dict-backed, yields the baton, injects failures)", "thread scheduling (baton)",
               "threading.Lock/RLock objects created by sqllineage modules are SimLock scheduling points (none exist on the unchanged tree)"],
@@ -53,7 +54,8 @@ DESCRIPTION = {
         "dependencies (sqlfluff, sqlparse, networkx) are atomic with respect to pre-emption",
         "crash points are call-out boundaries (provider lookups, taps) and every source line of LineageRunner._eval itself; not arbitrary bytecodes, and never inside a cleanup handler",
         "the isolated reference is the same analysis alone in a fresh fork of the same zygote (same hash seed): a wrong-but-stable answer is invisible here",
-        "each non-default provider is used by one thread at a time ('their own providers')",
+        "each non-default provider is used by one thread at a time ('their own providers'); requests to the web application (one provider per process) are issued by one thread, one after the other",
+        "entry-point worlds: what a command-line call prints is captured per simulated thread (sys.stdout is replaced by a dispatcher for the world)",
     ],
     "required_probes": {
         "quick": ["run_failed_after_registration", "provider_reused_after_failed_run", "overlapping_nonempty_sessions",
